@@ -198,7 +198,7 @@ func findMissingDependencies(c containerStore, params ...param) []paramSingle {
 		switch p := param.(type) {
 		case paramSingle:
 			allProviders := c.getAllValueProviders(p.Name, p.Type)
-			_, hasDecoratedValue := c.getDecoratedValue(p.Name, p.Type)
+			hasDecoratedValue := isDecorated(c, p)
 			// This means that there is no provider that provides this value,
 			// and it is NOT being decorated and is NOT optional.
 			// In the case that there is no providers but there is a decorated value
@@ -213,4 +213,19 @@ func findMissingDependencies(c containerStore, params ...param) []paramSingle {
 		}
 	}
 	return missingDeps
+}
+
+// isDecorated reports whether a decorated value for the given parameter
+// exists, or can be produced by a decorator that is not currently being
+// built, in the given store or any of its ancestors.
+func isDecorated(c containerStore, p paramSingle) bool {
+	for _, s := range c.storesToRoot() {
+		if _, ok := s.getDecoratedValue(p.Name, p.Type); ok {
+			return true
+		}
+		if d, ok := s.getValueDecorator(p.Name, p.Type); ok && d.State() != decoratorOnStack {
+			return true
+		}
+	}
+	return false
 }
